@@ -52,6 +52,7 @@ func runC20(c *core.Ctx) *core.Outcome {
 	cfg.FinishAlways = true
 	cfg.SetSession = t.Chance(1, 2)
 	cfg.CacheSize = 0
+	cfg.First = t.Chance(1, 3)
 	if cfg.OutputSize > 0 && cfg.OutputSize < 60 {
 		cfg.OutputSize = 0
 	}
